@@ -63,7 +63,9 @@ def main():
     known_args = {'read_inline': ['il_id'], 'read_crossline': ['xl_id'], 'read_zslice': ['zslice_id'], 'read_volume': [],
                   'read_subvolume': ['min_il', 'max_il', 'min_xl', 'max_xl', 'min_z', 'max_z'],
                   'read_subplane': ['min_trace', 'max_trace', 'min_z', 'max_z'],
-                  'get_trace': ['index', 'min_sample_id', 'max_sample_id']}
+                  'get_trace': ['index', 'min_sample_id', 'max_sample_id'],
+                  'read_correlated_diagonal': ['cd_id', 'min_cd_idx', 'max_cd_idx', 'min_sample_idx', 'max_sample_idx'],
+                  'read_anticorrelated_diagonal': ['ad_id', 'min_ad_idx', 'max_ad_idx', 'min_sample_idx', 'max_sample_idx']}
     loader_map = loader_cases(method, model, shape, rate, b, two_d) if method not in known_args else None
     if loader_map:
         cases = loader_map
@@ -78,7 +80,7 @@ def main():
                 args[k] = v
         if 'padded' in var and method in ('read_subvolume', 'read_subplane'):
             args['access_padding'] = True
-        missing = [k for k in known_args[method] if k not in args and k not in ('min_sample_id', 'max_sample_id')]
+        missing = [k for k in known_args[method] if k not in args and not k.startswith(('min_', 'max_'))]
         if missing:
             print(json.dumps({'reproduced': None, 'detail': f'model lacks arguments {missing}'}))
             return
